@@ -28,11 +28,14 @@ fn lattice(max: usize) -> Vec<(usize, usize)> {
 
 const QUICK_BIG: [(usize, usize); 7] = [(1, 12), (12, 1), (2, 9), (9, 2), (5, 7), (7, 5), (12, 12)];
 const PAIR_EXTRA: [(usize, usize); 12] = [(1, 6), (6, 1), (2, 6), (6, 2), (1, 8), (8, 1), (2, 8), (8, 2), (1, 16), (16, 1), (1, 12), (12, 1)];
-const PAIR_EXTRA_T: [(usize, usize); 14] = [(1, 12), (12, 1), (1, 16), (16, 1), (2, 12), (12, 2), (3, 12), (12, 3), (9, 10), (10, 9), (12, 12), (1, 64), (64, 1), (4, 16)];
+const PAIR_EXTRA_T: [(usize, usize); 10] = [(1, 16), (16, 1), (1, 24), (24, 1), (1, 64), (64, 1), (4, 16), (16, 4), (1, 144), (144, 1)];
 
 struct Bounds {
     lat: usize,
-    sigma_max: usize,
+    /// every {0,1,-1} fill is enumerated when r*c <= sigma: structural group / other groups / vectors
+    sigma_struct: usize,
+    sigma_other: usize,
+    sigma_vec: usize,
     big: Vec<(usize, usize)>,
     pair_lat: usize,
     pair_extra: Vec<(usize, usize)>,
@@ -48,36 +51,40 @@ struct Bounds {
 
 fn bounds(tier: Tier) -> Bounds {
     if tier.is_thorough() {
-        let lat = 8;
-        let big = lattice(12).into_iter().filter(|(r, c)| *r > lat || *c > lat).collect();
+        let lat = 12;
+        let big = vec![(1, 16), (16, 1), (13, 13), (16, 16), (3, 20), (20, 3)];
         Bounds {
             lat,
-            sigma_max: 9,
+            sigma_struct: 9,
+            sigma_other: 12,
+            sigma_vec: 10,
             big,
-            pair_lat: 8,
+            pair_lat: 12,
             pair_extra: PAIR_EXTRA_T.to_vec(),
-            vec_n: 9,
-            vec_big: vec![10, 11, 12, 13, 16, 24],
-            vec_pair: 12,
-            softmax_len: 5,
-            var_n: 10,
-            e2_depth: (5, 4),
+            vec_n: 10,
+            vec_big: vec![11, 12, 13, 16, 24],
+            vec_pair: 16,
+            softmax_len: 7,
+            var_n: 12,
+            e2_depth: (5, 5),
             e2_signs: vec![2, 0],
             e2_stack_limit: 12,
         }
     } else {
         Bounds {
-            lat: 4,
-            sigma_max: 6,
+            lat: 8,
+            sigma_struct: 6,
+            sigma_other: 9,
+            sigma_vec: 8,
             big: QUICK_BIG.to_vec(),
-            pair_lat: 4,
+            pair_lat: 8,
             pair_extra: PAIR_EXTRA.to_vec(),
-            vec_n: 6,
+            vec_n: 8,
             vec_big: vec![12],
-            vec_pair: 6,
-            softmax_len: 4,
-            var_n: 6,
-            e2_depth: (4, 3),
+            vec_pair: 8,
+            softmax_len: 5,
+            var_n: 9,
+            e2_depth: (4, 4),
             e2_signs: vec![2],
             e2_stack_limit: 12,
         }
@@ -107,7 +114,7 @@ impl Harness for C03 {
         // vectors first (cheapest), then one-operand matrix groups, pairs, softmax, variance
         for w in WIDTHS {
             for n in 1..=b.vec_n {
-                jobs.push(Job::new(format!("vec-{}-n{}", w, n), json!({"kind": "vec", "w": w, "n": n, "fills": "full"})));
+                jobs.push(Job::new(format!("vec-{}-n{}", w, n), json!({"kind": "vec", "w": w, "n": n, "fills": "full", "sigma": b.sigma_vec})));
             }
             for n in &b.vec_big {
                 jobs.push(Job::new(format!("vec-{}-n{}", w, n), json!({"kind": "vec", "w": w, "n": n, "fills": "lite"})));
@@ -119,7 +126,13 @@ impl Harness for C03 {
         for (r, c) in lattice(b.lat) {
             for w in WIDTHS {
                 for g in unary::GROUPS {
-                    jobs.push(Job::new(format!("un-{}-{}-{}x{}", g, w, r, c), json!({"kind": "unary", "group": g, "w": w, "r": r, "c": c, "fills": "full"})));
+                    let sigma = if g == "struct" { b.sigma_struct } else { b.sigma_other };
+                    // the big Sigma3 spaces are dealt to 16 jobs
+                    let shards = if r * c <= sigma && r * c > 9 { 16 } else { 1 };
+                    for k in 0..shards {
+                        let name = if shards > 1 { format!("un-{}-{}-{}x{}-shard{}", g, w, r, c, k) } else { format!("un-{}-{}-{}x{}", g, w, r, c) };
+                        jobs.push(Job::new(name, json!({"kind": "unary", "group": g, "w": w, "r": r, "c": c, "fills": "full", "sigma": sigma, "shard": k, "shards": shards})));
+                    }
                 }
             }
         }
@@ -190,7 +203,7 @@ impl Harness for C03 {
             ],
             bounds: json!({
                 "widths": "f64 and f32",
-                "one_operand_lattice": format!("every shape 1<=r,c<={} x 3 operation groups x fills {{4 index-coded sign patterns, 3 all-equal, 10 large-magnitude +-{{400,745,1000,1e6}}, 3 offset fills mu+s*{{-1,0,1}}, every {{0,1,-1}} fill when r*c<={}}} x every slice range, every reshape target (all (r',c')<=r*c+1 when r*c<=16), every take index tuple of length<=3 on both axes, 4 scalars, 6 powers, 3 thresholds, 7 norms, both axes", b.lat, b.sigma_max),
+                "one_operand_lattice": format!("every shape 1<=r,c<={} x 3 operation groups x fills {{4 index-coded sign patterns, 3 all-equal, 10 large-magnitude +-{{400,745,1000,1e6}}, 3 offset fills mu+s*{{-1,0,1}}, every {{0,1,-1}} fill when r*c<={} (structural group: <={})}} x every slice range, every reshape target (all (r',c')<=r*c+1 when r*c<=16), every take index tuple of length<=3 on both axes, 4 scalars, 6 powers, 3 thresholds, 7 norms, both axes", b.lat, b.sigma_other, b.sigma_struct),
                 "one_operand_structured": format!("{} further shapes up to 12x12 with 6 fills each", b.big.len()),
                 "two_operands": format!("every ordered pair of shapes from the {} shapes (lattice <={}x{} plus same-size partners) x 4 fills of A x 3-4 fills of B (incl. identical stored values under another shape) x 15 operations", pair_shapes(&b).len(), b.pair_lat, b.pair_lat),
                 "vectors": format!("Vec<T> of every length 1..{} (full fills), lengths {:?} (6 fills); every ordered pair of lengths <={}", b.vec_n, b.vec_big, b.vec_pair),
@@ -221,8 +234,13 @@ impl Harness for C03 {
         let cap = if tier.is_thorough() { 6_000_000 } else { 1_500_000 };
         let m64 = chain::ChainModel::<f64> { inits: inits.clone(), stack_limit: b.e2_stack_limit, _p: std::marker::PhantomData };
         let m32 = chain::ChainModel::<f32> { inits, stack_limit: b.e2_stack_limit, _p: std::marker::PhantomData };
+        let t0 = std::time::Instant::now();
         let r64 = mc::bfs::search("dense-matrix-chains-f64", &m64, b.e2_depth.0, cap);
+        let t1 = t0.elapsed().as_secs_f64();
         let r32 = mc::bfs::search("dense-matrix-chains-f32", &m32, b.e2_depth.1, cap);
+        if std::env::var("C03_E2_TIMING").is_ok() {
+            eprintln!("[e2] f64: {} states {} transitions {:.1}s; f32: {} states {:.1}s", r64.states, r64.transitions, t1, r32.states, t0.elapsed().as_secs_f64() - t1);
+        }
         // determinism of the transition function: a second search must find the same graph
         let again = mc::bfs::search("dense-matrix-chains-f32", &m32, b.e2_depth.1, cap);
         assert_eq!((again.states, again.transitions), (r32.states, r32.transitions), "E2 search is not deterministic");
@@ -248,11 +266,11 @@ impl Harness for C03 {
     }
 }
 
-fn fills_of(job: &Job, sigma_max: usize) -> FillSet {
+fn fills_of(job: &Job) -> FillSet {
     if job.s("fills") == "lite" {
         FillSet::Lite
     } else {
-        FillSet::Full { sigma_max }
+        FillSet::Full { sigma_max: job.u("sigma") }
     }
 }
 
@@ -261,9 +279,12 @@ fn run_t<T: model::W>(job: &Job, seed: u64) {
     let thorough = job.b("t");
     let b = bounds(if thorough { Tier::Thorough } else { Tier::Quick });
     match job.kind() {
-        "unary" => unary::run::<T>(job.s("group"), job.u("r"), job.u("c"), fills_of(job, b.sigma_max), seed),
+        "unary" => {
+            let shard = (job.params["shard"].as_u64().unwrap_or(0) as usize, job.params["shards"].as_u64().unwrap_or(1) as usize);
+            unary::run::<T>(job.s("group"), job.u("r"), job.u("c"), fills_of(job), shard, seed)
+        }
         "binary" => binary::run::<T>(job.u("r"), job.u("c"), &pair_shapes(&b), seed),
-        "vec" => vector::run_unary::<T>(job.u("n"), fills_of(job, b.sigma_max), seed),
+        "vec" => vector::run_unary::<T>(job.u("n"), fills_of(job), seed),
         "vecpair" => vector::run_binary::<T>(job.u("n"), b.vec_pair, seed),
         "softmax" => special::softmax::<T>(job.u("len"), job.u("orient"), seed),
         "variance" => special::variance::<T>(job.s("vkind"), job.u("n")),
